@@ -332,27 +332,20 @@ example : evalExpand (some [.sym "B", .known 1]) none (some [.sym "B", .known 1]
 /-- The rule replaces the dynamic shape operand by the annotated output shape, the single non-static
 dim becoming `-1`, and sets `allowzero=1`.  `inp` is the run-time shape of the data, `lo` the shape the
 original Reshape produced (so the element counts agree) and the output annotation `o` is truthful for it.
-Under the hypothesis the specification forces — **if a dim is non-static, no static dim is 0** — the new
-Reshape is defined and returns exactly `lo`, for every binding. -/
-theorem materialize_reshape_sound_partial (o : Shape) (tgt : List Int)
+Since commit 49df852 the check refuses a static 0 beside the non-static dim — the hypothesis the proof of
+the earlier `_partial` version had forced — so the statement now holds in full: whenever the rule fires,
+the new Reshape is defined and returns exactly `lo`, for every binding. -/
+theorem materialize_reshape_sound (o : Shape) (tgt : List Int)
     (h : materialize (some o) false = some tgt)
-    (hz : (∀ d ∈ o, d.isInt = true) ∨ Dim.known 0 ∉ o)
     (σ : String → Nat) (inp lo : List Int) (ho : Admits σ o lo) (hn : ∀ d ∈ lo, 0 ≤ d)
     (hp : prodInt inp = prodInt lo) : reshapeTarget inp tgt true = some lo := by
-  obtain ⟨hc, rfl⟩ := materialize_eq o tgt h
+  obtain ⟨hc, rfl, hnz'⟩ := materialize_eq o tgt h
   obtain ⟨i1, i2, i3, i4⟩ := mat_basic ho hn
   by_cases h0 : nonInts o = 0
   · rw [(mat_zero h0 ho).1]; exact reshapeTarget_literal inp lo hn hp
   · have h1 : nonInts o = 1 := by omega
     obtain ⟨v, e1, e2, e3⟩ := mat_one h1 ho hn
-    have hnz : Dim.known 0 ∉ o := by
-      rcases hz with hz | hz
-      · exfalso
-        have : o.filter (fun d => !d.isInt) = [] := by
-          rw [List.filter_eq_nil_iff]; intro d hd; simp only [hz d hd, Bool.not_true, Bool.false_eq_true,
-            not_false_eq_true]
-        simp only [nonInts, this, List.length_nil] at h1; omega
-      · exact hz
+    have hnz : Dim.known 0 ∉ o := hnz' h1
     have hc0 : (0 : Int) ∉ o.map matF := fun hm => hnz (mat_zero_mem hm)
     have hk : prodInt (statics o) ≠ 0 :=
       prodInt_ne_zero (fun d hd he => hnz (by subst he; exact statics_mem hd))
@@ -360,10 +353,11 @@ theorem materialize_reshape_sound_partial (o : Shape) (tgt : List Int)
     unfold reshapeTarget
     simp [i1, i2, i3, h1, hc0, e3, hk, hpi, Int.mul_ediv_cancel_left v hk, e2]
 
-/-- Without that hypothesis the statement is false: output annotated `[N, 0]`, run-time shape `[3, 0]` —
-the emitted target `[-1, 0]` with `allowzero=1` is invalid (replayed on the real rule: C09-D16c). -/
-theorem materialize_reshape_full_refuted :
-    ¬ (∀ (o : Shape) (tgt : List Int), materialize (some o) false = some tgt →
+/-- Regression witness: before commit 49df852 the statement was false — output annotated `[N, 0]`,
+run-time shape `[3, 0]`, emitted target `[-1, 0]` with `allowzero=1` (finding C09-D16c, now fixed; the
+model/feeds stay in the corpus). -/
+theorem materialize_reshape_prefix_refuted :
+    ¬ (∀ (o : Shape) (tgt : List Int), materializeBefore49df852 (some o) false = some tgt →
         ∀ (σ : String → Nat) (inp lo : List Int), Admits σ o lo → (∀ d ∈ lo, 0 ≤ d) →
           prodInt inp = prodInt lo → reshapeTarget inp tgt true = some lo) := by
   intro h
@@ -371,6 +365,7 @@ theorem materialize_reshape_full_refuted :
     (by simp only [Admits, Dim.Admits]; decide) (by decide) (by decide)
   revert this; decide
 
+example : materialize (some [.sym "N", .known 0]) false = none := by decide
 example : materialize (some [.sym "N", .known 2, .known 3]) false = some [-1, 2, 3] := by decide
 
 /-! ## `Abs` of a shape value, and the symbolic sums created by `add` -/
@@ -418,40 +413,94 @@ that sum** (`hname`; for two ints nothing is needed). -/
 theorem add_sym_sound_partial (d₀ d₁ r : Dim) (h : evalAdd (some [d₀]) (some [d₁]) = some [r])
     (σ : String → Nat) (a b : Int) (h₀ : d₀.Admits σ a) (h₁ : d₁.Admits σ b)
     (hname : ∀ nm, r = .sym nm → (σ nm : Int) = a + b) : r.Admits σ (a + b) := by
-  cases d₀ <;> cases d₁ <;> simp only [evalAdd, Dim.render, Option.some.injEq, List.cons.injEq, and_true] at h <;>
+  cases r with
+  | sym nm => exact hname nm rfl
+  | known k =>
+    cases d₀ <;> cases d₁ <;> simp only [evalAdd, Dim.render] at h <;>
+      first
+      | (simp only [Option.some.injEq, List.cons.injEq, Dim.known.injEq, and_true] at h
+         simp only [Dim.Admits] at h₀ h₁ ⊢; omega)
+      | (split at h <;> simp at h)
+      | cases h
+  | unknown =>
+    cases d₀ <;> cases d₁ <;> simp only [evalAdd, Dim.render] at h <;>
+      first
+      | (simp at h; done)
+      | (split at h <;> simp at h)
+      | cases h
+
+/-- what `add` records is never a negative int operand mixed into a symbolic sum (commit 4b0f9eb) -/
+theorem add_no_negative_in_sum (d₀ d₁ : Dim) (nm : String)
+    (h : evalAdd (some [d₀]) (some [d₁]) = some [.sym nm]) : d₀.isNegInt = false ∧ d₁.isNegInt = false := by
+  cases d₀ <;> cases d₁ <;> simp only [evalAdd, Dim.render] at h <;>
     first
-    | (subst h; simp only [Dim.Admits] at h₀ h₁ ⊢; omega)
-    | (subst h; exact hname _ rfl)
+    | (simp at h; done)
+    | (split at h
+       · cases h
+       · rename_i hc
+         simpa only [Bool.or_eq_true, not_or, Bool.not_eq_true] using hc)
     | cases h
 
-/-- **D5.**  The composition `Abs(a + b)` is *not* an identity for every binding: `a = [N]`,
-`b = [-5]`, `N = 2` — the fold pass records `"N+-5"` and `abs` takes it for non-negative. -/
-theorem abs_after_add_refuted :
-    ¬ (∀ (a b : Shape), evalAbs (evalAdd (some a) (some b)) = true →
+/-- **D5, fixed by commit 4b0f9eb.**  `Abs(a + b)` replaced by `Identity` is now right for *every*
+binding and every pair of single-entry shape values: whenever `abs` fires on what `add` recorded, the
+run-time sum is non-negative. -/
+theorem abs_after_add_sound (a b : Shape) (h : evalAbs (evalAdd (some a) (some b)) = true)
+    (σ : String → Nat) (x y : Int) (ha : Admits σ a [x]) (hb : Admits σ b [y]) : 0 ≤ x + y := by
+  match a, b, ha, hb with
+  | [d₀], [d₁], ha, hb =>
+    simp only [Admits, and_true] at ha hb
+    cases hr : evalAdd (some [d₀]) (some [d₁]) with
+    | none => rw [hr] at h; simp only [evalAbs] at h; cases h
+    | some r =>
+      rw [hr] at h
+      cases d₀ with
+      | known n =>
+        cases d₁ with
+        | known m =>
+          simp only [evalAdd, Option.some.injEq] at hr
+          subst hr
+          simp only [evalAbs, List.any_cons, List.any_nil, Bool.or_false, Bool.not_eq_true',
+            decide_eq_false_iff_not] at h
+          simp only [Dim.Admits] at ha hb; omega
+        | sym s =>
+          simp only [evalAdd, Dim.render] at hr
+          split at hr
+          · cases hr
+          · rename_i hc
+            simp only [Dim.isNegInt, Bool.or_false, decide_eq_true_eq] at hc
+            simp only [Dim.Admits] at ha hb; omega
+        | unknown => simp only [evalAdd, Dim.render] at hr; cases hr
+      | sym s =>
+        cases d₁ with
+        | known m =>
+          simp only [evalAdd, Dim.render] at hr
+          split at hr
+          · cases hr
+          · rename_i hc
+            simp only [Dim.isNegInt, Bool.false_or, decide_eq_true_eq] at hc
+            simp only [Dim.Admits] at ha hb; omega
+        | sym t => simp only [Dim.Admits] at ha hb; omega
+        | unknown => simp only [evalAdd, Dim.render] at hr; cases hr
+      | unknown => cases d₁ <;> simp only [evalAdd, Dim.render] at hr <;> cases hr
+  | [], _, ha, _ => simp only [Admits] at ha
+  | _ :: _ :: _, _, ha, _ => simp only [Admits] at ha; exact ha.2.elim
+  | [_], [], _, hb => simp only [Admits] at hb
+  | [_], _ :: _ :: _, _, hb => simp only [Admits] at hb; exact hb.2.elim
+
+/-- Regression witness: before commit 4b0f9eb the statement was false — `a = [N]`, `b = [-5]`, `N = 2`:
+the fold pass recorded `"N+-5"` and `abs` took it for non-negative (finding D5, now fixed; the model stays
+in the corpus). -/
+theorem abs_after_add_prefix_refuted :
+    ¬ (∀ (a b : Shape), evalAbs (evalAddBefore4b0f9eb (some a) (some b)) = true →
         ∀ (σ : String → Nat) (x y : Int), Admits σ a [x] → Admits σ b [y] → 0 ≤ x + y) := by
   intro h
   have := h [.sym "N"] [.known (-5)] (by decide) (fun _ => 2) 2 (-5)
     (by simp only [Admits, Dim.Admits]; decide) (by simp only [Admits, Dim.Admits]; decide)
   revert this; decide
 
-/-- … it is one when no negative int enters the sum. -/
-theorem abs_after_add_partial (d₀ d₁ : Dim) (h : evalAbs (evalAdd (some [d₀]) (some [d₁])) = true)
-    (hnn : ∀ n, (d₀ = .known n ∨ d₁ = .known n) → 0 ≤ n) (hu : d₀ ≠ .unknown ∧ d₁ ≠ .unknown)
-    (σ : String → Nat) (x y : Int) (h₀ : d₀.Admits σ x) (h₁ : d₁.Admits σ y) : 0 ≤ x + y := by
-  have hx : 0 ≤ x := by
-    cases d₀ with
-    | known n => simp only [Dim.Admits] at h₀; have := hnn n (Or.inl rfl); omega
-    | sym a => simp only [Dim.Admits] at h₀; omega
-    | unknown => exact absurd rfl hu.1
-  have hy : 0 ≤ y := by
-    cases d₁ with
-    | known n => simp only [Dim.Admits] at h₁; have := hnn n (Or.inr rfl); omega
-    | sym a => simp only [Dim.Admits] at h₁; omega
-    | unknown => exact absurd rfl hu.2
-  omega
-
-example : evalAdd (some [.sym "N"]) (some [.known (-5)]) = some [.sym "N+-5"] := by decide
-example : evalAbs (some [.sym "N+-5"]) = true := by decide
+example : evalAdd (some [.sym "N"]) (some [.known (-5)]) = none := by decide
+example : evalAdd (some [.sym "N"]) (some [.known 5]) = some [.sym "N+5"] := by decide
+example : evalAbs (evalAdd (some [.sym "N"]) (some [.known 5])) = true := by decide
 
 /-! ## Shape pieces: `Shape(start,end)`, `Size`, `Gather`, `Concat` -/
 
